@@ -195,6 +195,40 @@ INTR_PROG = r'''
 '''
 
 
+RAISE_PROG = r'''
+# an operation with a timeout argument that RAISES instead of suspending must leave nothing behind: the fiber's next wait (B)
+# completes by its own cause only. Each line: "R <op> <raised?> <B kind> <B result> <elapsed>"
+(def [r w] (os/pipe))
+(def [r2 w2] (os/pipe))
+(ev/spawn (protect (ev/read r 10)))          # r has a pending reader: a second read is refused
+(ev/sleep 0.01)
+(def to %s)
+(def ops
+  {:read-busy (fn [] (ev/read r 10 @"" to))
+   :chunk-busy (fn [] (ev/chunk r 10 @"" to))
+   :read-bad-n (fn [] (ev/read r2 -1 @"" to))
+   :read-bad-buf (fn [] (ev/read r2 10 :not-a-buffer to))
+   :write-bad-data (fn [] (ev/write w2 123 to))
+   :read-closed (fn [] (def [a b] (os/pipe)) (ev/close a) (ev/close b) (ev/read a 10 @"" to))
+   :write-closed (fn [] (def [a b] (os/pipe)) (ev/close a) (ev/close b) (ev/write b "x" to))
+   :take-closed (fn [] (def c (ev/chan)) (ev/chan-close c) (ev/with-deadline to (ev/give c 1)))})
+(each opname [%s]
+  (def raised (not (first (protect ((ops opname))))))
+  (each bkind [:sleep :take :read]
+    (def t0 (os/clock :monotonic))
+    (def res
+      (case bkind
+        :sleep (protect (ev/sleep %s))
+        :take (do (def c (ev/chan)) (ev/spawn (ev/sleep %s) (ev/give c :item)) (protect (ev/take c)))
+        :read (do (def [a b] (os/pipe)) (ev/spawn (ev/sleep %s) (ev/write b "data")) (protect (string (ev/read a 10))))))
+    (printf "R %%s %%s %%s %%q %%.4f" opname (if raised "raised" "returned") bkind res (- (os/clock :monotonic) t0))
+    # re-arm for the next B: run the raising operation again
+    (protect ((ops opname)))))
+(print "RAISE-DONE")
+(os/exit 0)
+'''
+
+
 def run(ctx):
     exe = build.janet("plain")
     quick = ctx.tier == "quick"
@@ -202,7 +236,8 @@ def run(ctx):
     ctx.rule = ("every ordered pair (A,B) of wait kinds {take, give, select-take, select-give, sleep, pipe read, os/proc-wait, ev/with-deadline body} x every "
                 "applicable way of abandoning A {ev/cancel, deadline expiry, satisfied through another select clause, per-call timeout}; helper fires A's "
                 "resource after F is parked on B, later completes B with a unique value; non-trivial = log proves A parked, abandoned, and fired while F waited "
-                "on B; plus ev/sleep durations 0..20 ms measured on CLOCK_MONOTONIC")
+                "on B; plus ev/sleep durations 0..20 ms measured on CLOCK_MONOTONIC; interrupting deadlines on busy fibers under contention; operations "
+                "with a timeout argument that raise without suspending, followed by an unrelated wait")
     ctx.assumptions = ["scenario steps are ordered with generous sleeps; a run whose log does not show the intended order is inconclusive, never a violation",
                        "the sleep rule is one-sided (elapsed >= d), so machine load cannot cause an alarm"]
     cases = []
@@ -261,6 +296,48 @@ def run(ctx):
             if float(el) < float(dd):
                 ctx.violation("sleep-returned-early", "ev/sleep %s returned after %s s" % (dd, el), files)
     core.pmap(sleeps, range(nsleep), jobs=4)
+
+    # rule 6: an operation with a timeout argument that raises without suspending leaves no live timer behind
+    nraise = 6 if quick else 60
+    ALLOPS = [":read-busy", ":chunk-busy", ":read-bad-n", ":read-bad-buf", ":write-bad-data", ":read-closed", ":write-closed", ":take-closed"]
+
+    def raising(i):
+        rng = random.Random(ctx.sub_seed("raise", i))
+        to = rng.choice([0.02, 0.03, 0.05])
+        bdur = to * 3 + 0.05
+        opsel = rng.sample(ALLOPS, 4)
+        script = RAISE_PROG % (repr(to), " ".join(opsel), repr(bdur), repr(bdur), repr(bdur))
+        files = {"raise.janet": script}
+        d = core.case_dir()
+        path = os.path.join(d, "raise.janet")
+        open(path, "w").write(script)
+        res = core.run([exe, path], timeout=120)
+        core.discard(res)
+        out = res.out.decode(errors="replace")
+        if "RAISE-DONE" not in out:
+            if not ctx.check_result(res, files, where="raise-before-suspend"):
+                return
+            with ctx.lock:
+                ctx.inconclusive.append("raise-prog-incomplete")
+            return
+        for line in out.splitlines():
+            if not line.startswith("R "):
+                continue
+            _, opname, raised, bkind, rest = line.split(" ", 4)
+            resq, el = rest.rsplit(" ", 1)
+            ctx.evals()
+            if raised != "raised":
+                ctx.count("raise_op_did_not_raise:" + opname)     # then nothing is claimed about it
+                continue
+            ctx.count("raise_then_wait")
+            ctx.nontriv(("raise", opname, bkind))
+            want = {":sleep": "(true nil)", ":take": "(true :item)", ":read": '(true "data")'}[":" + bkind.lstrip(":")]
+            if resq != want:
+                ctx.violation("stale-timer-after-raise:%s:%s" % (opname, bkind), "after (%s ... timeout %s) raised without suspending, the fiber's next wait (%s) "
+                              "ended with %s after %s s instead of %s" % (opname, to, bkind, resq, el, want), files)
+            elif bkind.endswith("sleep") and float(el) < bdur:
+                ctx.violation("stale-timer-after-raise:%s:sleep-early" % opname, "sleep %s after a raising %s returned after %s s" % (bdur, opname, el), files)
+    core.pmap(raising, range(nraise), jobs=6)
 
     # rule 5: an interrupting deadline ends a busy fiber (bounded progress), under CPU contention from its sibling runs
     nintr = 48 if quick else 480
